@@ -29,6 +29,19 @@ FIXED_FORMS = [
     "(((lambda (y) (lambda (x) (when x y))) 7) 1)", "(apply + (list 1 (when 1 2)))", "(let (x '(when 1 2)) x)", "(throw 'kind (when 1 'k))",
 ]
 
+# run-time eval from inside a closure / let: the form is expanded in the CALLER's environment (local macros, inline macros
+# that use the caller's locals); (program, printed value)
+LOCAL_EVAL = [
+    ("((lambda (m) (eval '(m 1 2))) (macro (a b) (list 'add a b)))", "3"),
+    ("((lambda (y) (eval '((macro (x) (list 'add x y)) 1))) 2)", "3"),
+    ("(let (unless (macro (c x) (list 'if c nil x))) (eval '(unless nil 'ran)))", "ran"),
+    ("((lambda (m) (eval (list 'm 5))) (macro (a) (list 'when t a)))", "5"),
+    ("((lambda (m y) (eval '(list (m y) y))) (macro (a) (list 'add a 1)) 10)", "(11 10)"),
+    ("((lambda (m) ((lambda (k) (eval '(m k))) 4)) (macro (a) (list 'add a a)))", "8"),
+    ("((lambda (m) (eval (macroexpand '(m 1 2)))) (macro (a b) (list 'add a b)))", "3"),
+    ("((lambda (m) (= (eval '(m 1 2)) (eval (macroexpand '(m 1 2))))) (macro (a b) (list 'add a b)))", "t"),
+]
+
 def wrap_monitors(form):
     """on the implementation: value of the form, value of its expansion, expansion twice vs once"""
     q = "'" + form if not form.startswith("'") else "(quote " + form + ")"
@@ -41,7 +54,7 @@ def run(tier, seed):
     standard_proof_phase(rep, TARGETS, IMPORTS, THEOREMS)
     rng = Rng(seed, 9)
     n = 250 if tier == "quick" else 4000
-    progs = list(FIXED_FORMS)
+    progs = list(FIXED_FORMS) + [p for p, _ in LOCAL_EVAL]
     stats = {}
     feats = {"prelude", "let", "macros", "inline_macro", "trap", "signal", "closure", "hof", "eval"}
     for i in range(n):
@@ -56,8 +69,22 @@ def run(tier, seed):
         rep.violation("expansion/evaluation does not terminate although every macro used terminates: " + progs[i], {"program": progs[i], "how": "picilisp --expression '" + progs[i] + "'", "observed": "no answer within the time limit"})
     for i in crashes[:2]:
         rep.violation("the interpreter crashed on " + progs[i], {"program": progs[i], "observed": answers[i][:300]})
+    for k, (p, want) in enumerate(LOCAL_EVAL):
+        i = len(FIXED_FORMS) + k
+        pa = run_driver_cases(evalcorr.driver_lines(["(print " + p + ")"]), timeout=6.0)[0]
+        rr = dump.split_run_answer(pa)
+        got = None
+        if "results" in rr and rr["results"] and rr["results"][-1][0] == "ok":
+            try:
+                got = dump.text_of(dump.parse_dump(rr["results"][-1][1]))
+            except dump.Truncated:
+                got = None
+        if got != want:
+            rep.violation(f"eval of a form inside a closure is not expansion in the caller's environment followed by evaluation: {p} gives {got if got is not None else pa[:120]}, expected {want}",
+                          {"program": p, "expected": want, "observed": pa[:300]})
     # meaning + idempotence monitors on the implementation
-    single = [p for p in progs if p.count("(define ") == 0][: (150 if tier == "quick" else 1500)]
+    local_eval = set(p for p, _ in LOCAL_EVAL)    # their expansions contain macro OBJECTS, on which = is not reflexive (C13 is about data free of functions)
+    single = [p for p in progs if p.count("(define ") == 0 and p not in local_eval][: (150 if tier == "quick" else 1500)]
     mon = run_driver_cases(evalcorr.driver_lines([wrap_monitors(p) for p in single]), timeout=6.0)
     mon_checked = 0
     for p, a in zip(single, mon):
